@@ -194,7 +194,11 @@ func (n *networkTopology) replicaMap(tokenRing *tokenRing) tokenRingReplicas {
 	// dc -> racks
 	seenDCRacks := make(map[string]map[string]struct{}, len(n.dcs))
 
-	for _, h := range tokenRing.hosts {
+	// only hosts that own tokens are met by the walk below: the rack of a host without
+	// tokens (a coordinator-only node) could never be seen and would keep the skipped
+	// hosts of its datacenter from ever being used
+	for _, th := range tokenRing.tokens {
+		h := th.host
 		dc := h.DataCenter()
 		rack := h.Rack()
 
